@@ -199,6 +199,8 @@ def judge(run, events_path, prop, name=None, timeout=1800, heap="6g", consts=Non
     run.trace_events += n
     run.states += dist
     run.transitions += gen
+    if not name or not name.startswith("selftest"):
+        run.__dict__.setdefault("judged_traces", []).append((events_path, prop))
     mm = tagged(lines, "MISMATCH")
     for m in mm:
         m["_trace"] = events_path
@@ -371,8 +373,84 @@ def replay_generic(d):
     finally:
         run.cleanup()
 
+# ---------------------------------------------------------------- binding self-test
+def corrupt_event(ev, prop):
+    """One recorded field of one observation event changed into an answer the property forbids (or None when this
+    event offers no such field). Used only by binding_selftest: the trace specification must reject the result."""
+    e = json.loads(json.dumps(ev)); k = e.get("k")
+    if k == "matrix" and e.get("n", 0) >= 2:
+        n = min(e["n"], 24)
+        e["n"] = n; e["texts"] = e["texts"][:n]; e["part"] = e["part"][:n]; e["m"] = [r[:n] for r in e["m"][:n]]
+        e["rejected"] = 0; e["rejtexts"] = []; e["panics"] = []
+        if prop == "C01":
+            for i in range(n):
+                for j in range(i + 1, n):
+                    if e["part"][i] == e["part"][j]:
+                        e["m"][i][j] = 1; e["m"][j][i] = 1     # both greater than the other
+                        return e, "m[%d][%d] and m[%d][%d] both set to 1" % (i, j, j, i)
+            return None
+        e["m"] = [[-x for x in r] for r in e["m"]]             # the reversed order
+        return e, "every sign of the matrix negated"
+    if k in ("range", "short") and e.get("parsed") and e.get("contains"):
+        e["contains"][0] = not e["contains"][0]; return e, "contains[0] flipped"
+    if k == "cmp" and e.get("acca") and e.get("accb") and not e.get("panic"):
+        e["got"] = -e["want"] if e["want"] else 1; return e, "got replaced"
+    if k == "vers" and e.get("probes") and e.get("tag") != "star":
+        e["probes"][0]["ok"] = not e["probes"][0]["ok"]; return e, "probes[0].ok flipped"
+    if k == "total" and e.get("v") and prop == "C06":
+        key = sorted(e["v"])[0]; e["v"][key] = 2; return e, "outcome code of %s set to 2 (value and error)" % key
+    if k == "cli" and prop == "C15" and e.get("exit") in (0, 1) and not e.get("hang"):
+        e["exit"] = 1 - e["exit"]; return e, "exit status flipped"
+    if k == "sortset" and e.get("outs") and len(e["outs"][0]) >= 2:
+        e["outs"][0] = e["outs"][0][1:]; return e, "one element dropped from the first output"
+    if k == "versvar" and e.get("res") and e["res"][0]:
+        e["res"][0][0] = 1 - (e["baseres"][0] % 2) if e["baseres"][0] < 2 else 0; return e, "res[0][0] changed"
+    if k == "verswf" and not e.get("text", "").endswith("/*") and not e.get("panics"):
+        e["err"] = not e["err"]; e["ok"] = False; return e, "err flipped"
+    if k == "roundtrip" and e.get("acc"):
+        e["str"] = e["str"] + [120]; return e, "an x appended to the recorded String()"
+    if k == "conc" and e.get("results"):
+        r = dict(e["results"][0]); r["res"] = r["res"] + "#"; e["results"].append(r); return e, "a second, different result added for one key"
+    if k == "members" and e.get("ranges"):
+        n = e["n"]
+        for i in range(n):
+            for j in range(i + 1, n):
+                if e["part"][i] == e["part"][j] and e["m"][i][j] == 0 and e["m"][j][i] == 0:
+                    for r in e["ranges"]:
+                        if r.get("parsed") and len(r["contains"]) == n:
+                            r["contains"][i] = not r["contains"][j]
+                            e["ranges"] = [r]
+                            return e, "membership of one of two equal versions flipped"
+    return None
+
+def binding_selftest(run):
+    """Demonstrate, on this run's own recorded trace, that the trace specification is bound to the observations:
+    one recorded field is corrupted and TLC must report a mismatch. An accepted corruption means the judge is
+    vacuous for this property (exit 2), whatever the real trace said."""
+    tried = 0
+    for path, prop in run.__dict__.get("judged_traces", []):
+        for ev in read_ndjson(path):
+            c = corrupt_event(ev, prop)
+            if not c: continue
+            tried += 1
+            tp = run.path("selftest%d.ev" % tried)
+            write_ndjson(tp, [c[0]])
+            st0, tr0, te0 = run.states, run.transitions, run.trace_events
+            mm, _ = judge(run, tp, prop, name="selftest%d" % tried, heap="3g")
+            run.states, run.transitions, run.trace_events = st0, tr0, te0
+            if any(not m.get("known") for m in mm):
+                run.extra["binding_selftest"] = {"event_kind": ev.get("k"), "corruption": c[1], "rejected_by_trace_spec": True, "events_tried": tried}
+                return
+            if tried >= 40: break
+        if tried >= 40: break
+    if tried == 0:
+        run.extra["binding_selftest"] = {"events_tried": 0, "note": "no event of this run offers a corruptible field"}
+        return
+    raise Infra("binding self-test failed: %d corrupted events were all accepted by the trace specification" % tried)
+
 def finish(run, level="model_checking", rule="", exhaustive=False, judged=None, min_judged=1):
     """Write evidence, print verdict lines, return the exit code."""
+    binding_selftest(run)
     wall = time.time() - run.t0
     cov = {
         "states": max(run.states, 0),
